@@ -107,6 +107,17 @@ pub fn profile(name: &str) -> VecCfg {
             max_commits: 3,
             ..base
         },
+        // commit / rollback chains with skipped and re-used stamps, hardly any editing
+        "rb_stamps" => VecCfg {
+            kinds: kinds(&["push", "commit", "rollback", "rollback_before"]),
+            pushes: vec![2],
+            ixs: vec![],
+            retention: 10,
+            max_len: 10,
+            max_commits: 4,
+            commit_deltas: vec![1, 2],
+            ..base
+        },
         // refused rollbacks (no usable record for the current stamp) in clean and dirty states
         "rb_refused" => VecCfg {
             kinds: kinds(&[
@@ -296,6 +307,8 @@ fn plan(property: &str, tier: &str) -> Vec<(&'static str, &'static str, usize)> 
                 vec![
                     ("bytes", "rb_raw", 6),
                     ("pco", "rb_dense", 6),
+                    ("bytes", "rb_stamps", 6),
+                    ("pco", "rb_stamps", 6),
                     // continuations from a state with two commits behind it
                     ("pco", "rb_dense+pre_c2+c4", 5),
                     ("bytes", "rb_raw+pre_c2+c4", 5),
@@ -365,6 +378,7 @@ fn plan(property: &str, tier: &str) -> Vec<(&'static str, &'static str, usize)> 
                 vec![
                     ("bytes", "rb_raw+k0", 4),
                     ("bytes", "rb_raw+k2", 5),
+                    ("bytes", "rb_stamps+k2", 7),
                     ("pco", "rb_dense+k1", 5),
                     ("bytes", "rb_raw+k1+faults", 4),
                     ("bytes", "rb_raw+k2+faults", 4),
